@@ -9,6 +9,8 @@ Driver ops for the executing entry point (property C16).
 * `run_model`: `{"text": s, "natives": null | [<gatedef dump>…], "override": [[name, <num>], …]}` →
   `{"ok": {"subcircuits": n, "visits": [k…], "traces": [[gate token…]…]}}` | `{"err": cls}` |
   `{"err": "JaqalParseError", "pos": [line | null, col]}` — `RunModel.runModel`
+* `well_formed`: same input → `{"well_formed": bool}` for the circuit `fill_in_let(expand_subcircuits(parse(text)), ov)` returns
+  (`WF.wellFormed` = `ExpandMacros.WellFormed`), `{"well_formed": null, "stage": …}` when an earlier stage fails.
 * `run_stage`: same input → `{"stage": name, "err": cls}` naming the first stage that fails (`parse`, `build`,
   `expand_subcircuits`, `fill_in_let`, `expand_macros`, `execute`) or `{"stage": "done"}`; for diagnostics.
 -/
@@ -51,7 +53,22 @@ def opRunStage (j : Json) : Jaqal.R Json := do
             | .error e => pure (fail "execute" e)
             | .ok _ => pure (jobj [("stage", .str "done")])
 
+def opWellFormed (j : Json) : Jaqal.R Json := do
+  let s ← jstr (← jget j "text")
+  let cfg ← Pipeline.cfgOfJson j
+  let ov ← FillIn.overrideFromJson (jgetD j "override" (.arr #[]))
+  let early (stage : String) : Json := jobj [("well_formed", .null), ("stage", .str stage)]
+  match Pipeline.parseProgram cfg s with
+  | .error _ => pure (early "parse")
+  | .ok c =>
+    match ExpandSubcircuits.expandSubcircuits none none c with
+    | .error _ => pure (early "expand_subcircuits")
+    | .ok c1 =>
+      match FillIn.fillInLet ov c1 with
+      | .error _ => pure (early "fill_in_let")
+      | .ok c2 => pure (jobj [("well_formed", .bool (WF.wellFormed c2))])
+
 def ops : List (String × (Json → Jaqal.R Json)) :=
-  [("run_model", opRunModel), ("run_stage", opRunStage)]
+  [("run_model", opRunModel), ("run_stage", opRunStage), ("well_formed", opWellFormed)]
 
 end Jaqal.RunModel
